@@ -623,16 +623,35 @@ func (e *env) versions(idx int) error {
 	if err := e.cl.Commit(root); err != nil {
 		return err
 	}
+	// the parent is the committed root (master) or, every second time, a committed node on a named branch: there
+	// "newversion" and "branch <the parent's own branch name>" ask for the same slot
+	parent, parentBranch := root, "master"
+	if idx%2 == 1 {
+		b, err := e.cl.Branch(root, "pb")
+		if err != nil {
+			return err
+		}
+		if err := e.cl.Commit(b); err != nil {
+			return err
+		}
+		parent, parentBranch = b, "pb"
+	}
 	dl := e.delays()
 	n := 2 + e.r.Intn(7)
 	kind := []string{"newversion", "branch-same-name", "mixed"}[e.r.Intn(3)]
 	var reqs []drv.Req
+	var slot []string // branch the request asks a child for
 	for i := 0; i < n; i++ {
 		switch {
 		case kind == "newversion" || (kind == "mixed" && i%2 == 0):
-			reqs = append(reqs, drv.Req{Method: "POST", URL: "/api/node/" + root + "/newversion", Body: []byte(`{"note":"x"}`)})
+			reqs = append(reqs, drv.Req{Method: "POST", URL: "/api/node/" + parent + "/newversion", Body: []byte(`{"note":"x"}`)})
+			slot = append(slot, parentBranch)
+		case parentBranch != "master" && e.r.Intn(2) == 0:
+			reqs = append(reqs, drv.Req{Method: "POST", URL: "/api/node/" + parent + "/branch", Body: []byte(`{"branch":"` + parentBranch + `"}`)})
+			slot = append(slot, parentBranch)
 		default:
-			reqs = append(reqs, drv.Req{Method: "POST", URL: "/api/node/" + root + "/branch", Body: []byte(`{"branch":"same"}`)})
+			reqs = append(reqs, drv.Req{Method: "POST", URL: "/api/node/" + parent + "/branch", Body: []byte(`{"branch":"same"}`)})
+			slot = append(slot, "same")
 		}
 	}
 	resps, err := e.w.Par(reqs)
@@ -641,28 +660,27 @@ func (e *env) versions(idx int) error {
 	}
 	e.w.SetDelay(0, 0, false)
 	sig := overlapSig(resps)
-	e.c.Case(fmt.Sprintf("ver|%d|%s|%s", idx, kind, drv.Hash(sig)), true)
+	e.c.Case(fmt.Sprintf("ver|%d|%s|%s|%s", idx, kind, parentBranch, drv.Hash(sig)), true)
+	e.c.Seen("version_parent_kinds", parentBranch)
 	e.c.Seen("version_interleaving_signatures", drv.Hash(sig))
 	e.c.Seen("delay_profiles", dl)
 	e.c.Count("concurrent_version_requests", len(reqs))
 	okBy := map[string]int{}
 	for i, r := range resps {
 		if r.OK() {
-			if strings.Contains(reqs[i].URL, "newversion") {
-				okBy["master"]++
-			} else {
-				okBy["same"]++
-			}
+			okBy[slot[i]]++
 		}
 	}
-	wit := map[string]interface{}{"kind": kind, "statuses": statuses(resps), "overlap": sig, "delays": dl}
+	wit := map[string]interface{}{"kind": kind, "parent_branch": parentBranch, "statuses": statuses(resps), "overlap": sig, "delays": dl}
 	for b, k := range okBy {
 		if k > 1 {
 			which := "newversion"
 			if b == "same" {
 				which = "branch"
+			} else if parentBranch != "master" {
+				which = "newversion+branch-own-name"
 			}
-			e.c.Violation("versions:"+which+":same-branch-concurrent", fmt.Sprintf("%d of %d concurrent %s requests on one committed parent were acknowledged for branch %q (at most one child per branch)", k, len(reqs), which, b), wit)
+			e.c.Violation("versions:"+which+":same-branch-concurrent", fmt.Sprintf("%d of %d concurrent requests on one committed parent (branch %q) were acknowledged for a child on branch %q (at most one child per branch)", k, len(reqs), parentBranch, b), wit)
 		}
 	}
 	repos, _, err := e.cl.Repos()
